@@ -269,6 +269,9 @@ func observe(res *graphql.Result, rt *Runtime) Observed {
 			o.InfoBad = append(o.InfoBad, e.Field+": "+e.InfoOK)
 		}
 	}
+	rt.mu.Lock()
+	o.InfoBad = append(o.InfoBad, rt.TypeInfoBad...)
+	rt.mu.Unlock()
 	return o
 }
 
@@ -598,8 +601,68 @@ func GenCase(r *hx.Rng, m Mode) *Case {
 		c.Reuse = r.Range(2, 4)
 		c.Mutate = true
 	}
-	c.TypedSlices = r.Chance(1, 2) // last draw of the case: list variables as typed Go slices
+	c.TypedSlices = r.Chance(1, 2) // list variables as typed Go slices
+	// (drawn after everything else, so the cases of earlier versions keep their schema / document / world)
+	// fragments the selected operation does NOT reach: another operation of the same document spreads them (so the
+	// document stays valid: NoUnusedFragments), directly and through another fragment. info.Fragments of every
+	// resolver / ResolveType / IsTypeOf call of the selected operation must still hold them (C20).
+	if pick.Name != "" && r.Chance(1, 4) {
+		c.OpName = pick.Name
+		extra := "\nquery VerifOther { ...VerifExtra }\nfragment VerifExtra on " + s.Query + " { __typename ...VerifExtraDeep }\nfragment VerifExtraDeep on " + s.Query + " { __typename }\n"
+		if r.Chance(1, 2) {
+			c.Query = c.Query + extra
+		} else {
+			c.Query = strings.TrimPrefix(extra, "\n") + c.Query // definitions before the selected operation
+		}
+	}
 	return c
+}
+
+// docFragments: names of all fragment definitions of the document, and of those the selected operation reaches through
+// fragment spreads (directly or through other fragments).
+func docFragments(doc *ast.Document, opName string) (all []string, reached map[string]bool) {
+	defs := map[string]*ast.FragmentDefinition{}
+	var op *ast.OperationDefinition
+	for _, d := range doc.Definitions {
+		switch x := d.(type) {
+		case *ast.FragmentDefinition:
+			if x.Name != nil {
+				defs[x.Name.Value] = x
+				all = append(all, x.Name.Value)
+			}
+		case *ast.OperationDefinition:
+			if op == nil && (opName == "" || (x.Name != nil && x.Name.Value == opName)) {
+				op = x
+			}
+		}
+	}
+	sort.Strings(all)
+	reached = map[string]bool{}
+	var walk func(set *ast.SelectionSet)
+	walk = func(set *ast.SelectionSet) {
+		if set == nil {
+			return
+		}
+		for _, sel := range set.Selections {
+			switch x := sel.(type) {
+			case *ast.Field:
+				walk(x.SelectionSet)
+			case *ast.InlineFragment:
+				walk(x.SelectionSet)
+			case *ast.FragmentSpread:
+				if x.Name != nil && !reached[x.Name.Value] {
+					if fd, ok := defs[x.Name.Value]; ok {
+						reached[x.Name.Value] = true
+						walk(fd.SelectionSet)
+					}
+				}
+			}
+		}
+	}
+	if op != nil {
+		walk(op.SelectionSet)
+	}
+	return all, reached
 }
 
 // One runs a case against the real code and the model and records the verdict.
@@ -619,6 +682,8 @@ func One(run *hx.Run, drv *hx.Driver, m Mode, c *Case) {
 		run.Tag("generator-produced-invalid-document")
 		return
 	}
+	allFrags, reachedFrags := docFragments(doc, c.OpName)
+	rt.SetDocFragments(allFrags)
 	var mr modelResp
 	req := map[string]interface{}{"schema": c.Schema, "doc": astjson.Document(doc), "opName": c.OpName, "vars": c.Vars, "world": c.World}
 	if err := drv.Ask(req, &mr); err != nil {
@@ -796,6 +861,19 @@ func One(run *hx.Run, drv *hx.Driver, m Mode, c *Case) {
 	}
 	if strings.Contains(c.Query, "...") {
 		run.Tag("doc-has-fragments")
+	}
+	if len(reachedFrags) < len(allFrags) {
+		// some fragment definition is spread only by an operation that is not the selected one
+		run.Tag("unreachableFragments")
+		if len(obs.Log) > 0 {
+			run.Tag("unreachableFragments:seen-by-resolvers")
+		}
+		if len(obs.TypeCtx) > 0 {
+			run.Tag("unreachableFragments:seen-by-ResolveType/IsTypeOf")
+		}
+		if strings.Contains(c.Query, "VerifExtraDeep") {
+			run.Tag("unreachableFragments:appended-operation")
+		}
 	}
 	if strings.Contains(c.Query, "fragment M0 ") {
 		run.Tag("doc-has-merge-pattern")
